@@ -304,6 +304,22 @@ func sigFirstFew(prop, sig string) bool {
 	return atomic.AddInt64(v.(*int64), 1) <= 2
 }
 
+// sigFlushLater reports the occurrences beyond the first two (which were
+// shrunk and reported with their witnesses) so that the totals in the evidence
+// are right. Called once, after all cases ran.
+func sigFlushLater(r *vkit.Run, prop string) {
+	sigCount.Range(func(k, v interface{}) bool {
+		ks := k.(string)
+		if !strings.HasPrefix(ks, prop+"|") {
+			return true
+		}
+		for n := atomic.LoadInt64(v.(*int64)) - 2; n > 0; n-- {
+			r.Violation(strings.TrimPrefix(ks, prop+"|"), "further occurrence (witness not kept)", nil)
+		}
+		return true
+	})
+}
+
 // parallelUnlessStuck is vkit.Parallel, except that it gives up waiting when a
 // violation has already been recorded and no case completed for 15 s (a broken
 // structure may make bfe loop forever; the verdict "violated" is already
@@ -345,8 +361,7 @@ func c20Check(r *vkit.Run, c *c20Case, shrink bool) {
 	for _, v := range viols {
 		w, what := c, v.What
 		if shrink && !sigFirstFew("C20", v.Sig) {
-			r.Violation(v.Sig, what, nil) // counted only: vkit keeps the first two witnesses per signature
-			continue
+			continue // counted; reported by sigFlushLater after the first two (shrunk) witnesses
 		}
 		if shrink && v.At >= 0 {
 			w = c20Shrink(&c20Case{Cfg: c.Cfg, Universe: c.Universe, Ops: c.Ops[:v.At+1]}, v.Sig)
@@ -504,8 +519,10 @@ func c20(r *vkit.Run) {
 		}
 		c20Check(r, c, true)
 	}) {
+		sigFlushLater(r, "C20")
 		return
 	}
+	sigFlushLater(r, "C20")
 	// outcomes the workload is supposed to reach
 	var missing []string
 	for _, name := range []string{"add_new", "add_existing", "add_refused_full", "remove_present", "remove_absent",
